@@ -211,6 +211,17 @@ fn gen_ops(rng: &mut Rng, maxn: usize) -> (Vec<Op>, String) {
         for (a, b) in es {
             ops.push(Op::Edge { k: kind(rng), a, b });
         }
+    } else if shape < 95 {
+        // fan: source -> k mids -> sink, k larger than any small constant channel capacity
+        name = "fan";
+        let k = *rng.pick(&[5usize, 17, 33, 65, 100, 130]);
+        add_fns(rng, &mut ops, k + 2, 0);
+        for m in 1..=k {
+            ops.push(Op::Edge { k: kind(rng), a: 0, b: m });
+        }
+        for m in 1..=k {
+            ops.push(Op::Edge { k: kind(rng), a: m, b: k + 1 });
+        }
     } else {
         // wide: many roots (more than any small constant channel capacity), few edges, little conflict
         name = "wide";
@@ -322,6 +333,7 @@ struct GenChooser {
     allow_abort: bool,
     midpoll_intr: bool,
     steps: usize,
+    burst: bool, // complete / drop everything that is in flight at once
 }
 
 impl GenChooser {
@@ -384,12 +396,12 @@ impl GenChooser {
                             batch.push(Act::Poll { run: i });
                         }
                     } else {
-                        let k = 1 + rng.below(3.min(r.live.len() as u64)) as usize;
+                        let k = if self.burst { r.live.len() } else { 1 + rng.below(3.min(r.live.len() as u64)) as usize };
                         let mut live = r.live.clone();
                         for _ in 0..k {
                             let j = rng.below(live.len() as u64) as usize;
                             batch.push(Act::Drop { run: i, f: live.remove(j) });
-                            if rng.chance(15) {
+                            if !self.burst && rng.chance(15) {
                                 batch.push(Act::Poll { run: i });
                             }
                         }
@@ -398,7 +410,7 @@ impl GenChooser {
                 } else {
                     // got an item: poll on, or drop something first
                     self.useless = 0;
-                    if !r.live.is_empty() && rng.chance(35) {
+                    if !self.burst && !r.live.is_empty() && rng.chance(35) {
                         let f = *rng.pick(&r.live);
                         batch.push(Act::Drop { run: i, f });
                     }
@@ -439,7 +451,13 @@ impl GenChooser {
                 batch.push(Act::Poll { run: i });
                 continue;
             }
-            let k = if rng.chance(70) { 1 } else { 1 + rng.below(3.min(r.inflight.len() as u64)) as usize };
+            let k = if self.burst {
+                r.inflight.len()
+            } else if rng.chance(70) {
+                1
+            } else {
+                1 + rng.below(3.min(r.inflight.len() as u64)) as usize
+            };
             let mut infl = r.inflight.clone();
             for _ in 0..k.min(infl.len()) {
                 let j = rng.below(infl.len() as u64) as usize;
@@ -514,7 +532,8 @@ fn run_case(
                 session(&mut g, &s.cfgs, out, &mut |_v, _step| it.next());
             }
             None => {
-                let mut ch = GenChooser { rng: Rng(rng.next() | 1), useless: 0, allow_abort, midpoll_intr: midpoll, steps: 0 };
+                let burst = rng.chance(22);
+                let mut ch = GenChooser { rng: Rng(rng.next() | 1), useless: 0, allow_abort, midpoll_intr: midpoll, steps: 0, burst };
                 session(&mut g, &s.cfgs, out, &mut |v, step| ch.choose(v, step));
             }
         }
